@@ -646,8 +646,13 @@ Inductive case :=
           (impl : Z * Z)                         (* SignedTRC.Verify: coarse and fine class *)
           (upd : option (Z * list Z * list Z * list Z)).  (* TRC.ValidateUpdate result *)
 
+(** the predecessor handed to Verify is a valid TRC (it was verified when it was stored) whose
+    serial number is in the range of its Go type *)
 Definition pred_ok (pred : option trc) : bool :=
-  match pred with Some p => match trc_validate p with None => true | Some _ => false end | None => true end.
+  match pred with
+  | Some p => match trc_validate p with None => t_serial p <? two64 | Some _ => false end
+  | None => true
+  end.
 
 Definition check (c : case) : N :=
   match c with
